@@ -41,6 +41,8 @@ IT[('PV', 'float')] = 'is_PFloat(x) or (is_PEnum(x) and (emix(x) == Mix.FLOAT))'
 IT[('PV', 'cast(UnionType, ParamScalar)')] = 'is_scalar(x)'
 R.func('pv_id', ['PV'], 'Ident')
 R.func('PV_to_Inst', ['PV'], 'Inst')
+R.func('Inst_to_PV', ['Inst'], 'PV')
+R.axiom("forall('Inst', lambda i: Inst_to_PV(i) == PTask(i))", name='definition: a task object as a parameter value')
 R.axiom("forall('Inst', lambda i: PV_to_Inst(PTask(i)) == i)", name='definition: the task object held by a PTask value')
 
 R.contract('labtech.types:is_task', params={'obj': 'PV'}, returns='Bool', pure=True, defn='is_PTask(obj)', trusted=True,
@@ -150,3 +152,56 @@ R.func('state_has_no_results', ['StateDict'], 'Bool')
 R.contract(f'{TK}:_task__setstate__', self_type='Inst', params={'state': 'StateDict'},
     ensures=[C("post_init_derived(self)", 'the copy again carries whatever the task type\'s post_init derives', serves=('C15',))], frame=['Inst.*'])
 R.func('post_init_derived', ['Inst'], 'Bool')
+
+# ---- serialisation (serialization.py) -- C07 / C09
+SZ = 'labtech.serialization:Serializer'
+R.func('cls_fullname', ['Cls'], 'Str')            # f'{cls.__module__}.{cls.__qualname__}' of an Enum class
+R.func('fullname_cls', ['Str'], 'Cls')            # deserialize_class for enum classes
+R.func('deser_task_pv', ['PV'], 'Inst')           # SPEC: the task reconstructed from such a document
+R.func('enum_mix', ['Cls'], 'Mix')
+# entries of a dict-shaped document: lookup of a constant key, in the order-insensitive way dict.get works
+R.recfunc('ents_get', {'e': 'PE', 'k': 'Str'}, 'PV', "ite(is_ENil(e), PNone(), ite(is_PStr(ekey(e)) and (ps(ekey(e)) == k), evalue(e), ents_get(erest(e), k)))")
+R.recfunc('ents_has', {'e': 'PE', 'k': 'Str'}, 'Bool', "(not is_ENil(e)) and ((is_PStr(ekey(e)) and (ps(ekey(e)) == k)) or ents_has(erest(e), k))")
+R.macro('marked', ['v', 'k'], "is_PDict(v) and ents_has(dents(v), k) and is_PBool(ents_get(dents(v), k)) and pb(ents_get(dents(v), k))")
+R.macro('ENUMDOC', ['c', 'n'], "PDict(ECons(PStr('_is_enum'), PBool(True), ECons(PStr('__class__'), PStr(cls_fullname(c)), ECons(PStr('name'), PStr(n), ENil()))))")
+R.recfunc('ser', {'v': 'PV'}, 'PV',
+    "ite(is_PTask(v), ser_task_pv(inst(v)), ite(is_PTuple(v), PList(ser_list(titems(v))), ite(is_PFrozen(v), PDict(ser_ents(fents(v))), "
+    "ite(is_PEnum(v), ENUMDOC(ecls(v), ename(v)), v))))")
+R.recfunc('ser_list', {'l': 'PL'}, 'PL', "ite(is_LNil(l), l, LCons(ser(head(l)), ser_list(tail(l))))")
+R.recfunc('ser_ents', {'e': 'PE'}, 'PE', "ite(is_ENil(e), e, ECons(ekey(e), ser(evalue(e)), ser_ents(erest(e))))")
+R.recfunc('deser', {'j': 'PV'}, 'PV',
+    "ite(marked(j, '_is_task'), PTask(deser_task_pv(j)), ite(marked(j, '_is_enum'), PEnum(fullname_cls(ps(ents_get(dents(j), '__class__'))), ps(ents_get(dents(j), 'name')), enum_mix(fullname_cls(ps(ents_get(dents(j), '__class__'))))), "
+    "ite(is_PList(j), PList(deser_list(litems(j))), ite(is_PDict(j), PDict(deser_ents(dents(j))), j))))")
+R.recfunc('deser_list', {'l': 'PL'}, 'PL', "ite(is_LNil(l), l, LCons(deser(head(l)), deser_list(tail(l))))")
+R.recfunc('deser_ents', {'e': 'PE'}, 'PE', "ite(is_ENil(e), e, ECons(ekey(e), deser(evalue(e)), deser_ents(erest(e))))")
+SERF = ('ser', 'ser_list', 'ser_ents', 'deser', 'deser_list', 'deser_ents', 'ents_get', 'ents_has', 'immutable', 'imm_list', 'imm_ents')
+
+R.classes['labtech.serialization:Serializer'] = R.classes.get('labtech.serialization:Serializer') or R.cls(SZ, fields={})
+R.contract(f'{SZ}.is_serialized_task', self_type='Obj[Serializer]', params={'serialized': 'PV'}, returns='Bool', pure=True, defn="marked(serialized, '_is_task')", trusted=True,
+    note="isinstance(serialized, dict) and bool(serialized.get('_is_task', False)); the .get/bool on an arbitrary JSON value is read as the spec predicate `marked`")
+R.contract(f'{SZ}.is_serialized_enum', self_type='Obj[Serializer]', params={'serialized': 'PV'}, returns='Bool', pure=True, defn="marked(serialized, '_is_enum')", trusted=True)
+R.contracts['labtech.serialization:Serializer.serialize_task'] = None
+R.contract(f'{SZ}.serialize_task', self_type='Obj[Serializer]', params={'task': 'PV'}, returns='PV', pure=True,
+    requires=["is_PTask(task)"], ensures=["result == ser_task_pv(inst(task))"], raises={'SerializationError': []}, frame=[], trusted=True,
+    note='builds the document field by field (computed attribute names): decided by the bounded stand-in, used here through its spec symbol')
+R.contract(f'{SZ}.serialize_enum', self_type='Obj[Serializer]', params={'value': 'PV'}, returns='PV', pure=True,
+    requires=["is_PEnum(value)"], ensures=["result == ENUMDOC(ecls(value), ename(value))"], frame=[], trusted=True,
+    note='a three-key dict literal of the class full name and the member name')
+R.contract(f'{SZ}.deserialize_task', self_type='Obj[Serializer]', params={'serialized': 'PV', 'result_meta': 'Opt[Meta]'}, returns='PV', pure=True,
+    ensures=["result == PTask(deser_task_pv(serialized))"], raises={'SerializationError': []}, frame=[], trusted=True,
+    note='rebuilds the task through its class constructor: decided by the bounded stand-in')
+R.contract(f'{SZ}.deserialize_enum', self_type='Obj[Serializer]', params={'serialized': 'PV'}, returns='PV', pure=True,
+    ensures=["result == PEnum(fullname_cls(ps(ents_get(dents(serialized), '__class__'))), ps(ents_get(dents(serialized), 'name')), enum_mix(fullname_cls(ps(ents_get(dents(serialized), '__class__')))))"],
+    frame=[], trusted=True, note='enum_cls[name] after importing the class by its recorded full name')
+R.contract(f'{SZ}.serialize_value', self_type='Obj[Serializer]', params={'value': 'PV'}, returns='PV', pure=True,
+    spec='ser', lift={'map_list': 'ser_list', 'map_ents': 'ser_ents'}, lift_pred={'immutable': {'list': 'imm_list', 'ents': 'imm_ents'}}, reveal=SERF,
+    requires=[C("immutable(value)", 'the value was produced by immutable_param_value')],
+    ensures=[C("result == ser(value)", 'the document is the spec serialisation: tasks and enums as marked dicts carrying their class, tuples as lists, frozendicts as dicts, scalars as themselves', serves=('C07', 'C09'))],
+    raises={}, frame=[])
+R.contract(f'{SZ}.deserialize_value', self_type='Obj[Serializer]', params={'value': 'PV'}, returns='PV', pure=True,
+    spec='deser', lift={'map_list': 'deser_list', 'map_ents': 'deser_ents'}, reveal=SERF,
+    ensures=[C("result == deser(value)", 'marked dicts become tasks/enums again AT EVERY DEPTH (inside lists and dicts too)', serves=('C09',))],
+    raises={'SerializationError': []}, frame=[])
+R.contracts['labtech.utils:ensure_dict_key_str'].params = {'value': 'PV', 'exception_type': 'ExcCls'}
+R.const_names['SerializationError'] = 'ExcCls'
+R.const_names['TaskError'] = 'ExcCls'
